@@ -290,6 +290,41 @@ def r3_r5(ctx):
         if e[0] == "discr" and "remote_enr" in fmt_short(e[1]) and not derives(e[1], rec):
             names, _ = eg.variant_names(bi)
             unknown += [(bi, tb) for v, tb in t.vals if names.get(v) == "None"]
+    # the choice made once and kept in a flag (`let use_attached = match (attached, known) { (Some(n), Some(k)) => n.seq() > k.seq(), (Some(_), None)
+    # => true, .. => false }; if use_attached { attached } else { known }`): where the flag is true, it is the comparison (which then holds)
+    # or a literal `true` - and the literal is assigned only where no record was known
+    def is_newer_cmp(x):
+        c = comparison(x)
+        if c and c[0] in (">", "<"):
+            hi_, lo_ = (c[1], c[2]) if c[0] == ">" else (c[2], c[1])
+            return fmt_short(hi_).startswith("Enr::seq(") and fmt_short(lo_).startswith("Enr::seq(") and derives(hi_, rec) and "remote_enr" in fmt_short(lo_)
+        return False
+    for bi, t, e in eg.switches():
+        if e[0] != "phi" or t.discr is None or t.discr.place is None or not t.discr.place.is_local():
+            continue
+        alts = list(e[1])
+        if not (any(is_newer_cmp(a) for a in alts) and all(is_newer_cmp(a) or const_int_of(a) in (0, 1) for a in alts)):
+            continue
+        # where is the literal `true` assigned?
+        locs, true_blocks, okf = [t.discr.place.local], [], True
+        for l in locs:
+            for lhs, kind, payload, blk, _ln in ep.defs.get(l, ()):
+                if blk not in ef.live_blocks():
+                    continue
+                if kind == "rv" and payload.k == "use" and payload.ops and payload.ops[0].place is not None and payload.ops[0].place.is_local():
+                    if payload.ops[0].place.local not in locs:
+                        locs.append(payload.ops[0].place.local)
+                elif kind == "rv" and payload.k == "use" and payload.ops and payload.ops[0].const_int() == 1:
+                    true_blocks.append(blk)
+                elif kind == "rv" and payload.k == "use" and payload.ops and payload.ops[0].const_int() == 0:
+                    pass
+                elif kind == "rv" and payload.k == "bin":
+                    pass
+                else:
+                    okf = False
+        r0 = ef.reachable(0, removed_edges=unknown)
+        if okf and not any(tb in r0 for tb in true_blocks):
+            newer.append((bi, eg.bool_edges(bi)[1]))
     r = ef.reachable(0, removed_edges=newer + unknown)
     r5.check(bool(sel) and bool(newer) and not any(sb in r for sb in sel), "handshake: the attached record becomes the session's record only if none was known or attached.seq() > known.seq()",
              "session|not-newer", "establish_from_challenge can hand on the record attached to the handshake although a record with the same or a higher sequence number is "
